@@ -44,13 +44,43 @@ class NumArr:
     def copy(self):
         return NumArr([x.copy() if isinstance(x, NumArr) else x for x in self.data])
 
+    @property
+    def dtype(self):
+        """'bool' | 'int' | 'float' | 'object' from the element values (numpy's promotion for homogeneous data)"""
+        flat = [y for x in self.data for y in (x.data if isinstance(x, NumArr) else [x])]
+        if flat and all(isinstance(v, bool) for v in flat):
+            return "bool"
+        if all(isinstance(v, int) and not isinstance(v, bool) for v in flat):
+            return "int"
+        if all(isinstance(v, (int, float)) for v in flat):
+            return "float"
+        return "object"
+
     def astype(self, t=None, *a, **k):
         name = getattr(t, "__name__", str(t))
-        if "int" in name:
-            return NumArr([int(x) for x in self.data])
-        if "float" in name:
-            return NumArr([float(x) for x in self.data])
-        return self.copy()
+        want = "int" if "int" in name else "float" if "float" in name else None
+        copy = k.get("copy", True)
+        if want is not None and want == self.dtype and copy is False:
+            return self            # numpy returns the array itself: the result aliases the input
+        conv = int if want == "int" else float if want == "float" else (lambda v: v)
+        return NumArr([x.astype(t) if isinstance(x, NumArr) else conv(x) for x in self.data])
+
+    def ravel(self):
+        if self.ndim == 2:
+            return NumArr([y for x in self.data for y in x.data])
+        return self
+
+    def flatten(self):
+        return NumArr(self.ravel().data)
+
+    def dot(self, o):
+        return dot(self, o)
+
+    @property
+    def T(self):
+        if self.ndim == 2:
+            return NumArr([[r.data[j] for r in self.data] for j in range(len(self.data[0]))])
+        return self
 
     def __repr__(self):
         return "NumArr(%r)" % (self.tolist(),)
@@ -92,6 +122,21 @@ class NumArr:
         return self.data[self._idx(key)]
 
     def __setitem__(self, key, value):
+        if isinstance(key, NumArr) and key.ndim == 2 and self.ndim == 2:
+            for r, kr in zip(self.data, key.data):
+                r[kr] = value
+            return
+        if isinstance(key, tuple) and len(key) == 2 and self.ndim == 2:
+            if isinstance(key[0], int):
+                self.data[self._idx(key[0])][key[1]] = value
+                return
+            if isinstance(key[0], slice) and isinstance(key[1], int):
+                rows = self.data[key[0]]
+                vals = list(value) if _is_seq(value) else [value] * len(rows)
+                for r, v in zip(rows, vals):
+                    r[key[1]] = v
+                return
+            raise Undecided("index store %r" % (key,))
         if isinstance(key, slice):
             idx = list(range(len(self.data)))[key]
         elif _is_seq(key):
@@ -111,15 +156,41 @@ class NumArr:
 
     # -------------------------------------------------------------- arithmetic
     def _bin(self, o, fn):
+        def one(a, b):
+            if isinstance(a, NumArr):
+                return a._bin(b, fn)
+            if isinstance(b, NumArr):
+                return b._bin(a, lambda y, x: fn(x, y))
+            return fn(a, b)
         if _is_seq(o):
             o = list(o)
+            if self.ndim == 2 and o and not _is_seq(o[0]):
+                # (n, m) op (m,) : broadcast along rows
+                return NumArr([r._bin(o, fn) for r in self.data])
             if len(o) != len(self.data):
                 if len(o) == 1:
                     o = o * len(self.data)
+                elif len(self.data) == 1:
+                    return NumArr([one(self.data[0], b) for b in o])
                 else:
                     raise Undecided("operands could not be broadcast together")
-            return NumArr([fn(a, b) for a, b in zip(self.data, o)])
-        return NumArr([fn(a, o) for a in self.data])
+            return NumArr([one(a, b) for a, b in zip(self.data, o)])
+        return NumArr([one(a, o) for a in self.data])
+
+    def _inplace(self, o, fn):
+        r = self._bin(o, fn)
+        if self.dtype == "int" and r.dtype == "float":
+            raise TypeError("numpy: cannot cast the float result of an in-place operation to an integer array")
+        self.data = r.data
+        return self
+
+    def __iadd__(self, o): return self._inplace(o, lambda a, b: a + b)
+    def __isub__(self, o): return self._inplace(o, lambda a, b: a - b)
+    def __imul__(self, o): return self._inplace(o, lambda a, b: a * b)
+    def __itruediv__(self, o): return self._inplace(o, lambda a, b: a / b)
+    def __rtruediv__(self, o): return self._bin(o, lambda a, b: b / a)
+    def __pow__(self, o): return self._bin(o, lambda a, b: a ** b)
+    def __abs__(self): return NumArr([abs(a) for a in self.data])
 
     def __add__(self, o): return self._bin(o, lambda a, b: a + b)
     __radd__ = __add__
@@ -142,9 +213,16 @@ class NumArr:
 
     def any(self): return any(bool(x) for x in self.data)
     def all(self): return all(bool(x) for x in self.data)
-    def sum(self, axis=None): return sum(self.data)
-    def min(self): return min(self.data)
-    def max(self): return max(self.data)
+    def sum(self, axis=None):
+        if self.ndim == 2:
+            if axis is None:
+                return sum(sum(r.data) for r in self.data)
+            if axis == 1:
+                return NumArr([sum(r.data) for r in self.data])
+            return NumArr([sum(r.data[j] for r in self.data) for j in range(len(self.data[0]))])
+        return sum(self.data)
+    def min(self): return min(self.ravel().data)
+    def max(self): return max(self.ravel().data)
     def argmin(self): return self.data.index(min(self.data))
     def argmax(self): return self.data.index(max(self.data))
     def cumsum(self):
@@ -153,6 +231,25 @@ class NumArr:
             t = t + x
             out.append(t)
         return NumArr(out)
+
+
+def dot(a, b):
+    a = a if isinstance(a, NumArr) else NumArr(a)
+    b = b if isinstance(b, NumArr) else NumArr(b)
+    if a.ndim == 2 and b.ndim == 1:
+        if len(a.data[0]) != len(b.data):
+            raise Undecided("shapes not aligned in dot")
+        return NumArr([sum(x * y for x, y in zip(r.data, b.data)) for r in a.data])
+    if a.ndim == 1 and b.ndim == 1:
+        if len(a.data) != len(b.data):
+            raise Undecided("shapes not aligned in dot")
+        return sum(x * y for x, y in zip(a.data, b.data))
+    if a.ndim == 1 and b.ndim == 2:
+        return dot(b.T, a)
+    if a.ndim == 2 and b.ndim == 2:
+        bt = b.T
+        return NumArr([[sum(x * y for x, y in zip(r.data, c.data)) for c in bt.data] for r in a.data])
+    raise Undecided("dot of these shapes")
 
 
 def num_summaries():
@@ -198,8 +295,18 @@ def num_summaries():
         "np.unique": lambda a: NumArr(sorted(set(a))), "np.sort": lambda a: NumArr(sorted(a)),
         "np.take": lambda a, idx, **k: NumArr(a)[idx], "np.concatenate": lambda seq, **k: NumArr([x for s in seq for x in s]),
         "np.append": lambda a, b: NumArr(list(a) + (list(b) if _is_seq(b) else [b])),
-        "np.ones": lambda n, *a, **k: NumArr([1] * n), "np.full": lambda n, v, *a, **k: NumArr([v] * n),
+        "np.ones": lambda n, *a, **k: NumArr([1] * n),
+        "np.full": lambda n, v, *a, **k: NumArr([v] * n) if isinstance(n, int) else (NumArr([v] * n[0]) if len(n) == 1 else NumArr([[v] * n[1] for _ in range(n[0])])),
         "np.empty": lambda n, *a, **k: NumArr([0] * n) if isinstance(n, int) else NumArr([[0] * n[1] for _ in range(n[0])]),
-        "np.inf": float("inf"),
+        "np.inf": float("inf"), "np.dot": dot, "np.matmul": dot,
+        "np.sum": lambda a, axis=None: (a if isinstance(a, NumArr) else NumArr(a)).sum(axis), "np.abs": lambda a: abs(a), "np.absolute": lambda a: abs(a),
+        "np.min": lambda a: NumArr(a).min() if _is_seq(a) else a, "np.max": lambda a: NumArr(a).max() if _is_seq(a) else a,
+        "np.amin": lambda a: NumArr(a).min(), "np.amax": lambda a: NumArr(a).max(),
+        "np.float64": float, "np.int64": int, "np.isinf": lambda a: NumArr([x in (float("inf"), float("-inf")) for x in a]) if _is_seq(a) else a in (float("inf"), float("-inf")),
+        "np.isfinite": lambda a: NumArr([x not in (float("inf"), float("-inf")) and x == x for x in a]) if _is_seq(a) else (a not in (float("inf"), float("-inf")) and a == a),
+        "np.zeros_like": lambda a, **k: NumArr([0 for _ in a]), "np.ones_like": lambda a, **k: NumArr([1 for _ in a]),
+        "np.full_like": lambda a, v, **k: NumArr([v for _ in a]), "np.count_nonzero": lambda a: sum(1 for x in a if x),
+        "np.add": lambda a, b: (a if isinstance(a, NumArr) else NumArr(a)) + b,
+        "np.multiply": lambda a, b: (a if isinstance(a, NumArr) else NumArr(a)) * b,
         "max": lambda *a: max(a) if len(a) > 1 else max(a[0]), "min": lambda *a: min(a) if len(a) > 1 else min(a[0]),
     }
